@@ -739,6 +739,9 @@ func genBigGenerationCase(r *rand.Rand) *c02Case {
 		r.Read(v)
 		c.Steps = append(c.Steps, dbStep{Op: "put", K: keys[1+j%2], V: v})
 	}
+	huge := make([]byte, 4<<20+300000+r.Intn(1000)) // one record larger than the write buffer and the read buffer
+	r.Read(huge)
+	c.Steps = append(c.Steps, dbStep{Op: "put", K: keys[2], V: huge}, dbStep{Op: "put", K: keys[0], V: []byte("after the huge one")})
 	c.Steps = append(c.Steps, dbStep{Op: "put", K: keys[3], V: []byte("after-the-cut")}, dbStep{Op: "rotate"},
 		dbStep{Op: "put", K: keys[0], V: []byte("second")}, dbStep{Op: "rotate"}, dbStep{Op: "del", K: keys[3]})
 	return c
